@@ -108,10 +108,15 @@ def check(pid, tier='quick', seed=0):
         print(f'CHECKER-BROKEN property={pid} bounded stand-in failed: {bounded["error"]}')
         _evidence(pid, tier, seed, cfg, verdicts, None, 0, time.time() - t0, note='bounded stand-in crashed: ' + bounded['error'])
         return 3
-    if bounded and bounded.get('n_harness_errors'):
+    if bounded and bounded.get('n_harness_errors') and not bounded.get('failures'):
         print(f'CHECKER-BROKEN property={pid} harness errors in bounded stand-in: {bounded["harness_errors"][0]["error"][:800]}')
         _evidence(pid, tier, seed, cfg, verdicts, bounded, 0, time.time() - t0, note='harness errors')
         return 3
+    if bounded and bounded.get('n_harness_errors'):
+        # harness errors next to genuine clause failures: the code under test handed the harness a malformed object (e.g. an operand
+        # whose shape was changed in place); the failures are reported, the harness errors are noted
+        print(f'NOTE property={pid} {bounded["n_harness_errors"]} cases ended in an exception inside the harness (first: '
+              f'{bounded["harness_errors"][0]["error"].splitlines()[0][:200]}); clause failures of the same run are reported below')
     bfail = bounded['failures'] if bounded else []
     # contract monitor: the T clauses evaluated numerically on the real functions (counts as bounded evidence)
     mon = None
